@@ -279,7 +279,11 @@ def debugger_suite(ctx, n_random, hist_len, exhaustive_len, big=False):
                 cases.append({'defs': [], 'main': [], 'files': {b'm': src.encode()}, 'mainf': b'm', 'text': src, 'prog': Prog(fields(o)), 'bigfixed': True})
     # two callees with frames of different sizes called one after the other (an activation object of the first kept while
     # the second runs)
-    for src in ("PROGRAM h IN u, v DO x0 := u END\nPROGRAM f IN a DO\n  b := RUN h WITH a + 1, a + 2 END;\n  b := b + 1\nEND\n"
+    # (OUT declared, so that every NAMED register of the first callee has a small index: its frame is larger than the second
+    # callee's only by temporaries)
+    for src in ("PROGRAM h IN u, v OUT w DO w := u END\nPROGRAM f IN a OUT b DO\n  b := RUN h WITH a + 1, a + 2 END;\n  b := b + 1\nEND\n"
+                "PROGRAM g IN p, q, r OUT p DO\n  p := q;\n  q := r\nEND\nx1 := RUN f WITH 1 END;\nx2 := RUN g WITH 1, 2, 3 END;\nx3 := 4\n",
+                "PROGRAM h IN u, v DO x0 := u END\nPROGRAM f IN a DO\n  b := RUN h WITH a + 1, a + 2 END;\n  b := b + 1\nEND\n"
                 "PROGRAM g IN p, q, r DO\n  p := q;\n  q := r\nEND\nx1 := RUN f WITH 1 END;\nx2 := RUN g WITH 1, 2, 3 END;\nx3 := 4\n",
                 "PROGRAM g IN p DO\n  p := p + 1\nEND\nPROGRAM f IN a, b, c, d DO\n  a := RUN g WITH b END;\n  b := c\nEND\n"
                 "LOOP x0 DO x1 := 1 END;\nx1 := RUN f WITH 1, 2, 3, 4 END;\nx2 := RUN g WITH RUN g WITH 5 END END;\nx3 := 4\n"):
